@@ -223,16 +223,25 @@ def check(prop):
     events, evmeta = [], []
     blanks = {}
     stats = {"stmts": 0, "by_kind": {}, "perr": 0, "err": 0, "reified": 0}
+    big = False
     for c, st in zip(cases, meta):
         r = res[c["id"]]
         after = conv_listing(r["after"], blanks)
         if st is None:
+            big = False
             events.append({"ev": "R", "after": after})
             evmeta.append((c, None, r))
             continue
         hf = fam_bql.hard_failure(r)
         if hf:
             v.reject(hf, {"text": c["text"], "panic": r["panic"][:300]}, {"case": c})
+        if big or max([len(gl["ts"]) for gl in after] or [0]) > 2500:
+            # a CONSTRUCT over a product of many solutions (with reification: several triples and a fresh blank node per
+            # row) left tens of thousands of triples in a graph: TLC compares listings in quadratic time, so the rest of
+            # this sequence (up to the next reset) is executed but not judged; counted in the evidence
+            big = True
+            stats["too_large"] = stats.get("too_large", 0) + 1
+            continue
         stats["stmts"] += 1
         stats["by_kind"][st["kind"]] = stats["by_kind"].get(st["kind"], 0) + 1
         stats["perr"] += bool(r["perr"])
@@ -308,6 +317,7 @@ def check(prop):
     if len(too_slow) > max(3, nseq // 100):
         raise Infra("%d statement sequences are too expensive for TLC (more than ten minutes each)" % len(too_slow))
     v.cov.update({"states": states, "transitions": len(events), "traces_validated_against_impl": nseq - len(too_slow),
+                  "statements_after_a_listing_of_more_than_2500_triples_not_judged": stats.get("too_large", 0),
                   "sequences_too_expensive_for_the_model_not_judged": len(too_slow), "sequences_too_expensive_samples": too_slow[:2],
                   "statements": stats["stmts"], "by_kind": stats["by_kind"], "rejected_by_parser": stats["perr"],
                   "failed_in_execution": stats["err"], "reification_constructs": stats["reified"],
